@@ -13,7 +13,7 @@ DOC = {
     'rules': {
         'C12.M': __import__('fcverif.rules.common', fromlist=['MANDATORY_TEXT']).MANDATORY_TEXT,
         'C12.R1': 'Key = {file_id, chunk_pos, chunk_len} covering all FileChunk fields; tree id formatted from algorithm and transform command; FileHasher::new_cached passes its own algorithm and transform.command_str',
-        'C12.R2': 'HashCache::get: Some only if modified_timestamp_ms == current and file_len == current (equality tests, both guarding the hit)',
+        'C12.R2': 'HashCache::get: Some only if modified_timestamp_ms == current and file_len == current (equality tests, both guarding the hit); and the entry is tied to the incarnation of the inode (a status-change or birth time that programs cannot set is stored and compared), because the key - the file identifier - is reused as soon as a file is deleted',
         'C12.R3': 'put and get compute the time stamp with the same conversion chain (modified -> duration_since(UNIX_EPOCH) -> as_millis), and the chain has no lossy step (fallback constant, clamp, saturation): different modification times give different stamps',
         'C12.R7': 'renaming or moving a file affects speed only: a transform result that may depend on the path (no temporary copy: the program gets the path of the file itself) is not cached under the file identifier - hash_transformed passes no key to load_hash / store_hash unless Transform.copy',
         'C12.R6': 'the validation of an entry (same mtime, same length) is only sound if the mtime would change on a later write: HashCache::put does not store an entry while the file is younger than the resolution of its time stamp (a time stamp without a fractional part is taken as 1-2 s coarse) - the store is control-dependent on a comparison of now, the modification time and its sub-second part',
@@ -257,6 +257,27 @@ def r2(ctx):
     for f, seen in need.items():
         if not seen:
             ctx.violation(rule, '%s|%s' % (P, f), b.where(), 'the lookup does not compare the cached %s with the current one' % f)
+    # the key is the file identifier, and identifiers are handed out again as soon as a file is deleted: the entry must also carry something
+    # that belongs to THIS incarnation of the inode and that a program cannot set (mtime can be set: tar, rsync -a, cp -p restore it)
+    inc = None
+    for cmp in comparisons(b):
+        sa, sb = backslice(b, [cmp.a]), backslice(b, [cmp.b])
+        for cached, cur in ((sa, sb), (sb, sa)):
+            cf = cached.field_names() - {'modified_timestamp_ms', 'file_len', 'data_len', 'hash'}
+            curc = [k for k in cur.calls if k.matches(r'MetadataExt.*::(ctime|ctime_nsec)$|Metadata::created$|::(ctime|ctime_nsec|btime|created)$') or
+                    (k.path and lib.body(k.path) is not None and lib.body(k.path).calls(r'MetadataExt.*::(ctime|ctime_nsec)$|Metadata::created$'))]
+            if cf and curc and cmp.op in ('==', '!='):
+                br = branch_of(b, cmp)
+                if br:
+                    sw, tt, ft = br
+                    eq_side = tt if cmp.op == '==' else ft
+                    ne_side = ft if cmp.op == '==' else tt
+                    if b.dominates(eq_side, hbb) and hbb not in b.reachable(ne_side):
+                        inc = cmp
+    ctx.check(inc is not None, rule, P + '|inode-incarnation', (b.where(inc.line) if inc else b.where()), 'hit only if the entry belongs to this incarnation of the inode (status-change / birth time unchanged)',
+              'an entry is validated by modification time and length only, but it is found by (device, inode), and a freed inode number is handed out again at once: files created after others were deleted '
+              '(`rm -r d; tar xf data.tar e` - tar restores the recorded, often identical, mtimes) are served the hashes of the deleted files of the same length: `group --cache` reports 99 groups of files '
+              'that differ where the uncached run reports none')
     # the compared metadata is the parameter (current metadata), the value is the cached entry for `key`
     g = b.calls(r'typed_sled::Tree::<K, V>::get$|Tree.*::get$')
     ok = bool(g) and 2 in backslice(b, [g[0].args[1]]).params
